@@ -194,15 +194,16 @@ CLAIMS["C17"] = dict(
     design="6/C17")
 
 CLAIMS["C19"] = dict(
-    text="PARTIAL. Theorems for ALL wages and ALL parameters satisfying cond (closed forms over exact rationals): employee contribution "
-         "non-negative, non-decreasing, zero up to the marginal threshold, constant above the ceiling; the reduced transition-zone base "
-         "meets the regular one at the upper boundary (both regimes); residual shares sum to the total; old-regime residual monotone. "
-         "Obligations regenerated every run for every date class >= 2015, pension and unemployment, east and west: the parameters read "
-         "off the model environment satisfy cond, and the model's scalar evaluation of the REAL rule chain (regenerated ASTs + real "
-         "loader graph + statutory rounding) equals the closed form on a stated wage grid (all boundaries +-1 cent + lattice) — a "
-         "bounded tie, not for all wages. Health and care insurance: engine sweeps only. Engine sweeps check the shape on the real code "
-         "for all four branches and compare the model chain with the implementation.",
-    technique="Coq proof (Contrib.v closed forms) + vm_compute grid agreement of the regenerated rule chain (Scalar.seval) + engine wage sweeps",
+    text="ALL WAGES, all four insurances, on the model evaluator of the real rule chains: a verified symbolic evaluator in the wage "
+         "(AffEval.sym_seval_sound: the scalar evaluation of the regenerated chain over the real graph, rounding on, equals a*w+b for EVERY "
+         "wage of an interval) and shape theorems for functions described by affine pieces (AffShape) give C19_all_wages: per dumped date "
+         ">= 2015 (one obligation each) and east / west x 0,1,2,4,6 children x age 20 / 35, the employee contribution is non-negative, "
+         "non-decreasing, zero up to the marginal threshold, constant from the ceiling on, continuous at the upper zone boundary, and "
+         "employee + employer = total inside the transition zone, for every wage w >= 0. Bounded only in the discrete configurations (other "
+         "inputs fixed: employee, publicly insured, not self-employed, no pension). Also: closed-form theorems for ALL parameters satisfying "
+         "cond (Contrib.v) with a grid tie to the chains for pension / unemployment. Engine sweeps check the shape on the real code for all "
+         "four branches and compare the model chain with the implementation.",
+    technique="Coq proof (AffEval.v verified symbolic evaluator + AffShape.v + ChkC19Aff.v; Contrib.v closed forms) + engine wage sweeps",
     design="6/C19")
 
 CLAIMS["C20"] = dict(
